@@ -993,7 +993,7 @@ def unit_string_source(sess, ctx):
     u = Unit("StringDataSource.__init__/read/set_data", [QS + "__init__", QS + "read", QS + "set_data"])
     eng = sess.engine()
     eng.inline |= {QS + "set_data"}
-    PS = ("C01", "C08", "C20")
+    PS = ALLTOK
 
     def run_(eng):
         N = Int("len(data)")
